@@ -1,5 +1,5 @@
-// Native replay of watch-mode histories against the REAL session code of beff-wasm (lib.rs + module_resolver.rs, see build.rs):
-// only the three JavaScript host imports are replaced by an in-memory disk.  BUNDLER is thread local, so "a fresh process" is a fresh thread.
+// Native replay of watch-mode histories against the REAL session code of beff-wasm (lib.rs + module_resolver.rs, see build.rs), driven through
+// its public entry points: only the three JavaScript host imports are replaced by an in-memory disk, and JsValue by a plain-Rust stand-in.  BUNDLER is thread local, so "a fresh process" is a fresh thread.
 // stdin: {"initial": {file: content}, "steps": [["update", f, c] | ["create", f, c] | ["rebuild"]]}
 // stdout: {"rebuilds": [{"step": i, "watch": text, "fresh": text, "equal": bool}]}
 #![allow(dead_code, unused_imports)]
@@ -11,10 +11,19 @@ mod module_resolver;
 #[path = "/repo/packages/beff-wasm/src/utils.rs"]
 mod utils;
 
+/// the two constructors of wasm_bindgen::JsValue that the session code uses (the real ones abort on a native target)
+#[derive(Clone, Debug, PartialEq)]
+pub struct JsValue(pub Option<String>);
+impl JsValue {
+    pub fn from_str(s: &str) -> JsValue { JsValue(Some(s.to_string())) }
+    pub fn undefined() -> JsValue { JsValue(None) }
+}
+
 include!(concat!(env!("OUT_DIR"), "/lib_native.rs"));
 
 thread_local! {
     static DISK: RefCell<std::collections::BTreeMap<String, String>> = RefCell::new(Default::default());
+    static EMITTED: RefCell<Vec<String>> = RefCell::new(vec![]);
 }
 /// host: tsc module resolution, here `./x` -> `x.ts` when that file exists
 fn resolve_import(_current_file: &str, specifier: &str) -> Option<String> {
@@ -25,22 +34,25 @@ fn resolve_import(_current_file: &str, specifier: &str) -> Option<String> {
 fn read_file_content(file_name: &str) -> Option<String> {
     DISK.with(|d| d.borrow().get(file_name).cloned())
 }
-fn emit_diagnostic(_diag: JsValue) {}
+/// host: prints the diagnostics
+fn emit_diagnostic(diag: JsValue) {
+    EMITTED.with(|e| e.borrow_mut().push(diag.0.unwrap_or_else(|| "undefined".to_string())));
+}
 
 const SETTINGS: &str = r#"{"string_formats":[],"number_formats":[]}"#;
 
-/// what commandeer.ts exec() does: diagnostics, and the bundle when there are none
+/// what the host does on every (re)build, through the PUBLIC entry points: diagnostics, then the bundle
 fn rebuild() -> String {
-    let diags = bundle_to_diagnostics_inner(parse_entrypoints("entry.ts", SETTINGS));
-    let diags = serde_json::to_string(&diags).unwrap();
-    if diags == r#"{"diagnostics":[]}"# {
-        match bundle_to_string_inner(parse_entrypoints("entry.ts", SETTINGS)) {
-            Ok(code) => format!("CODE\n{code}"),
-            Err(e) => format!("BUNDLE-ERROR\n{e}"),
-        }
-    } else {
-        format!("DIAGNOSTICS\n{diags}")
-    }
+    EMITTED.with(|e| e.borrow_mut().clear());
+    let diags = bundle_to_diagnostics("entry.ts", SETTINGS);
+    let code = bundle_to_string_v2("entry.ts", SETTINGS);
+    let emitted = EMITTED.with(|e| e.borrow().join("\n"));
+    format!(
+        "DIAGNOSTICS {}\nCODE {}\nEMITTED {}",
+        diags.0.unwrap_or_else(|| "undefined".to_string()),
+        code.0.unwrap_or_else(|| "undefined".to_string()),
+        emitted
+    )
 }
 fn fresh_process_rebuild(disk: std::collections::BTreeMap<String, String>) -> String {
     std::thread::spawn(move || {
@@ -69,7 +81,7 @@ fn main() {
                 let f = step[1].as_str().unwrap();
                 let c = step[2].as_str().unwrap();
                 DISK.with(|d| d.borrow_mut().insert(f.to_string(), c.to_string()));
-                if kind == "update" { update_file_content_inner(f, c); }
+                if kind == "update" { update_file_content(f, c); }
             }
             "rebuild" => {
                 let watch = std::panic::catch_unwind(rebuild).unwrap_or_else(|_| "PANIC".to_string());
